@@ -85,6 +85,7 @@ func main() {
 			symgo.Params[kv[:i]] = v
 		}
 	}
+	foundNew := false
 	type result struct {
 		LoadSec float64                `json:"load_s"`
 		Reports []*symgo.HarnessReport `json:"reports"`
@@ -147,12 +148,24 @@ func main() {
 			}
 			continue
 		}
-		rep, err := symgo.Explore(ld.Prog, ld.HPkg, cfg, symgo.ExploreOpts{Workers: *workers, MaxPaths: *maxPaths, Deadline: *deadline, Verbose: *verbose, Grace: *grace, Known: knownSet})
+		dl := *deadline
+		if foundNew && *grace > 0 && (dl == 0 || dl > 2*time.Minute) {
+			// an earlier harness of this run already decided the property (violated): the rest gets two minutes each
+			dl = 2 * time.Minute
+		}
+		rep, err := symgo.Explore(ld.Prog, ld.HPkg, cfg, symgo.ExploreOpts{Workers: *workers, MaxPaths: *maxPaths, Deadline: dl, Verbose: *verbose, Grace: *grace, Known: knownSet})
 		if err != nil {
 			fmt.Fprintln(os.Stderr, "ERROR:", err)
 			os.Exit(2)
 		}
 		res.Reports = append(res.Reports, rep)
+		if !strings.HasSuffix(e, "_twin") {
+			for _, v := range rep.Violations {
+				if !knownSet[v.Site+"|"+v.Class] && !knownSet[v.Site+"|*"] && !knownSet[v.Site+"|"] {
+					foundNew = true
+				}
+			}
+		}
 		fmt.Printf("%s: paths=%d ok=%d infeasible=%d unsupported=%d budget=%d cut=%d solverfail=%d internal=%d panicpaths=%d forks=%d asserts=%d discharged=%d queries=%d solver=%.1fs ifconv=%d wall=%.1fs violations=%d incomplete=%v\n",
 			e, rep.Paths, rep.PathsOK, rep.Infeasible, rep.Unsupported, rep.Budget, rep.Cuts, rep.SolverFail, rep.Internal, rep.PanicPaths, rep.Forks, rep.Asserts, rep.Discharged, rep.Queries, rep.SolverSec, rep.IfConv, rep.WallSec, len(rep.Violations), rep.Incomplete)
 		for r, n := range rep.Reasons {
